@@ -169,10 +169,6 @@ func Main() {
 		sc := getterList[c.I%len(getterList)]
 		runHistory(c, "corpus:"+sc.name, sc.ops, flavour{Snaps: true, Geth: true, Getters: true})
 	})
-	if os.Getenv("C08_DEV_RACE") != "" { // DEV-ONLY
-		r.Cases("prefetch-race", 800, core.Opts{Procs: 16, Race: true, StallSec: 300, Env: []string{"GORACE=halt_on_error=1"}}, raceHistory)
-		r.Finish()
-	}
 	procs := core.Opts{Procs: 16, StallSec: 120}
 	if r.Quick() {
 		r.Cases("history", 8000, procs, history)
@@ -197,5 +193,6 @@ func Main() {
 	r.Floor("accounts_deleted_selfdestructed", 500)
 	r.Floor("three_way_comparisons", 1000)
 	r.Floor("prefetchers_started", 100)
+	r.Floor("cold_reader_checks_across_flatten", 100)
 	r.Finish()
 }
